@@ -206,7 +206,9 @@ def _impl(c):
             if r is None:
                 out.append("N")
             else:
-                out.append("%d~%s~%d~%d" % (r[0], wire.enc_chunk(r[1]), sp.internal_offset, sp.internal_width))
+                # private bookkeeping: read when present (sharpens the representation-level tie), never required
+                out.append("%d~%s~%s~%s" % (r[0], wire.enc_chunk(r[1]), getattr(sp, "internal_offset", "?"),
+                                            getattr(sp, "internal_width", "?")))
         return "ok [" + " ".join(out) + "]"
     return guarded(lambda: reply_fmt_list(run_impl(c)))
 
@@ -324,6 +326,12 @@ def _oracle(c):
 oracle = safe_oracle(_oracle)
 
 
+def in_quantifier(c):
+    if c["op"] != "wasplit" or c["columns"] < 2:
+        return False
+    return all(wc(ch) in (0, 1, 2) for ch in text_of(c["f"]))
+
+
 def footprint(c, what):
     return None
 
@@ -336,8 +344,14 @@ def nontrivial(c):
 def check(ctx):
     self_check(ctx)
     cases, extra = mk_cases(ctx)
-    ctx.tie("C11/wasplit", cases, line, impl, canon, canon)
-    ctx.tie("C11/extras", extra, line, impl, canon, canon)
+    everything = list(cases) + list(extra)
+    inside = [c for c in everything if in_quantifier(c)]
+    outside = [c for c in everything if not in_quantifier(c)]
+    # property level: per-character cells of every line, inputs inside the quantifier (columns >= 2, widths 0/1/2)
+    ctx.tie("C11/wasplit", inside, line, impl, canon, canon)
+    # representation level: columns < 2 and control characters (exception kinds), and the ChunkSplitter protocol itself
+    # (request() return values, internal_offset/internal_width): stricter than / outside the property, never a verdict
+    ctx.tie("C11/outside-quantifier", outside, line, impl, canon, canon, level="representation")
     for c in cases:
         w = oracle(c)
         ctx.count(c, nontrivial=nontrivial(c), tag="columns=%d" % c["columns"])
